@@ -616,3 +616,64 @@ def de_replaces_only_on_strict_improvement(ctx):
     """differential evolution, every path of _Step: a member (and the best) is replaced only where the path has established `trial energy < incumbent` as a TRUE test - not merely the failure of `>=`, which also lets a NaN energy through (shared with C01.c)"""
     from .c01 import de_energy_stored_with_its_point
     de_energy_stored_with_its_point(ctx)
+
+
+def members_are_float_vectors(ctx):
+    """every initial-point setter stores FLOAT data into self.population: a value computed by random.uniform / a float arithmetic expression, the .tolist() of a float
+    draw, or an explicit float cast (asarray(.., dtype=float) / .astype(float)); the output of a user-supplied distribution is not known to be float and must be cast
+    (numpy.random.randint rows are int64: an accepted float trial stored with `population[i][:] = trial` is truncated, the member is then a vector that was never
+    evaluated and popEnergy no longer matches it).  Shared by C08.k and C01.p."""
+    from .c04 import AS
+    k = ctx.cls(AS)
+    n = 0
+    for name, m in sorted(k.methods.items()):
+        if not (name.startswith('Set') and name.endswith('InitialPoints')):
+            continue
+        sn = selfname_of(m)
+        for st in stmts_of(m.node):
+            if not (isinstance(st, ast.Assign) and len(st.targets) == 1 and isinstance(st.targets[0], ast.Subscript)):
+                continue
+            root = st.targets[0]
+            depth = 0
+            while isinstance(root, ast.Subscript):
+                root = root.value
+                depth += 1
+            if not (isinstance(root, ast.Attribute) and root.attr == 'population' and isinstance(root.value, ast.Name) and root.value.id == sn):
+                continue
+            n += 1
+            ctx.touch(m)
+            v = st.value
+
+            def floaty(e):
+                if isinstance(e, ast.Call):
+                    t_ = callee_text(e)
+                    last = t_.split('.')[-1]
+                    if last in ('asarray', 'array') and any(kw.arg == 'dtype' and 'float' in unparse(kw.value) for kw in e.keywords):
+                        return True
+                    if last == 'astype' and e.args and 'float' in unparse(e.args[0]):
+                        return True
+                    if last in ('uniform', 'random', 'normal', 'multivariate_normal', 'gauss', 'float'):
+                        return True
+                    if last == 'tolist' and isinstance(e.func, ast.Attribute):
+                        return floaty(e.func.value)
+                    return False
+                if isinstance(e, ast.BinOp):
+                    return floaty(e.left) or floaty(e.right) or isinstance(e.op, ast.Div)
+                if isinstance(e, ast.Constant):
+                    return isinstance(e.value, float)
+                if isinstance(e, ast.Name):
+                    # a local that was cast to float64 earlier in the method (x0 = asarray(x0, dtype='float64'))
+                    return any(isinstance(s2, ast.Assign) and any(isinstance(t2, ast.Name) and t2.id == e.id for t2 in s2.targets) and floaty(s2.value) for s2 in stmts_of(m.node) if s2.lineno < st.lineno)
+                if isinstance(e, ast.Subscript):
+                    return floaty(e.value)
+                return False
+            ctx.check(floaty(v), 'AbstractSolver.%s#%s' % (name, ' '.join(unparse(st.targets[0]).split())[:40]), 'stores float data (%s)' % unparse(v)[:50],
+                      'AbstractSolver.%s stores %s into the population without a float cast: an integer-valued sample (numpy.random.randint) leaves int64 rows, into which accepted float trials are truncated - '
+                      'the stored member is not the trial that was evaluated and its stored energy belongs to another vector' % (name, unparse(v)[:60]), m, st)
+    ctx.need(n >= 3, 'expected >= 3 stores into self.population by the initial-point setters, found %d' % n)
+
+
+@rule('C08.k', min_instances=3)
+def a_replaced_member_is_the_trial_that_was_evaluated(ctx):
+    """ "a member is replaced only by a trial of strictly lower energy" - and the new member IS that trial: the population rows the trial is copied into hold floats whatever produced the starting points (see members_are_float_vectors)"""
+    members_are_float_vectors(ctx)
